@@ -538,6 +538,16 @@ func (n *nilAnalysis) eval(v ssa.Value, at *ssa.BasicBlock, seen map[ssa.Value]b
 }
 
 func (n *nilAnalysis) evalRaw(v ssa.Value, at *ssa.BasicBlock, seen map[ssa.Value]bool) nilEval {
+	// A variable assigned exactly once, in another function of the family
+	// (typically inside the critical-section closure): judge the value where it
+	// is assigned, with the facts that hold there.
+	if ld, ok := core.Strip(v).(*ssa.UnOp); ok && ld.Op == token.MUL {
+		if cell := core.CellOf(ld.X); cell != nil && !core.AddressTaken(cell) {
+			if sts := core.StoresTo(cell); len(sts) == 1 && sts[0].Parent() != ld.Parent() && !seen[sts[0].Val] {
+				return n.eval(sts[0].Val, sts[0].Block(), seen)
+			}
+		}
+	}
 	v = n.resolveAt(v)
 	if seen[v] {
 		return nilEval{}
